@@ -170,6 +170,14 @@ def shape_obligations(hint_src, conf_src='BeartypeConf()', want=('C01', 'C02', '
                         add(f'C10.effect.path{pi}.{ei}.{op}', 'effect', pc, z3.BoolVal(False), 'C10', f'operation {op} is not in the read-only whitelist')
                     elif op in ('iter', 'next') and tgt is not None:
                         add(f'C10.effect.path{pi}.{ei}.{op}', 'effect', pc, M.inst(tgt, uni.const(cabc.Collection)), 'C10', 'iteration only of re-iterable collections')
+                        # ... and never of an object the path has itself ESTABLISHED to be an iterator (iter(it) is it: next(iter(it)) advances the subject) - e.g. an
+                        # Iterator[T] hint routed to a deep check.  Decided on the path condition's own conjuncts (no solver call).  An object that is merely not
+                        # EXCLUDED from also being its own iterator is a documented limitation of the generated guards (DESIGN 5, reports not taken up).
+                        if op == 'next':
+                            atom = M.inst(tgt, uni.const(cabc.Iterator))
+                            definite = any(c.eq(atom) for c in pc)
+                            rec['obligations'].append(dict(name=f'C10.effect.path{pi}.{ei}.next.advances_an_established_iterator', kind='effect', prop='C10', status='refuted' if definite else 'proved', time=0.0, backend='structural',
+                                                           where='next() on an object this very path has established to be an Iterator: the check consumes an item of its subject' if definite else 'the iterated object is not established to be an Iterator on this path'))
         if not is_random and 'getrandbits' in cap.code and 'C02' in want:
             pass
         rec['assumptions'] = sorted(ex.assumptions); rec['dropped'] = sorted(ex.dropped)
